@@ -15,7 +15,9 @@ blocks (``python -m lunaverif.bfm.g8_ephost`` re-runs that cross-check).  With T
                                 ``rx_pid_toggle`` := PID bit 3 in c_PID+1; ``rx.valid`` high from c_1+1 to T
                                 inclusive; ``rx.next`` strobes in c_i (i >= 2) with ``rx.payload`` = b_(i-2);
                                 ``rx_complete`` (CRC good) or ``rx_invalid`` (CRC bad) strobes in T+1;
-                                ``rx_ready_for_response`` strobes in T+1+d, only after a good CRC;
+                                ``rx_ready_for_response`` strobes in T+1+d, only after a good CRC (T+2+d when the
+                                device has a control endpoint and the payload is <= 8 bytes: the setup decoder
+                                restarts the shared timer one cycle late);
                                 fewer than two bytes after the PID: nothing but the toggle;
 * host handshake                ``handshakes_in.ack`` strobes in T+1;
 * transmit path                 the USBDataPacketGenerator keeps ``tx.ready`` low while idle and while it sends
@@ -150,9 +152,13 @@ class EpHost:
 
     RESP_WAIT = 4     # cycles after the ready strobe within which a DUT must have started its response
 
-    def __init__(self, events, *, d, phy=(1,), pid_wait=1, side=None, tail=16, tok_len=3, more=None):
+    def __init__(self, events, *, d, phy=(1,), pid_wait=1, side=None, tail=16, tok_len=3, more=None, ctrl=False):
         assert d >= 1
         self.d = d
+        # device has a control endpoint (every real device does): its USBSetupDecoder deserialises every good data
+        # packet of <= 8 payload bytes and restarts the *shared* inter-packet timer one cycle after the receiver
+        # did (registered new_packet strobe), so rx_ready_for_response comes one cycle later for such packets
+        self.ctrl = ctrl
         self.events = events
         self.side = side
         self.more = more           # optional callback(host) -> next event | None, used after `events` (drain phases)
@@ -217,8 +223,11 @@ class EpHost:
         ok = usb2_crc16(bytes(payload)) == crc
         self.pulse(T + 1, "rx_complete" if ok else "rx_invalid")
         if ok:
-            self.pulse(T + 1 + self.d, "rx_rdy")
+            self.pulse(T + 1 + self.rx_delay(len(payload)), "rx_rdy")
         return T, ok
+
+    def rx_delay(self, payload_len):
+        return self.d + (1 if self.ctrl and payload_len <= 8 else 0)
 
     # ---- helpers for the script ----------------------------------------------------------------------------
     def _hs_since(self, c0):
@@ -332,8 +341,9 @@ class EpHost:
         body = list(ev["data"])
         T, ok = self.data_packet(DATA_PID[ev.get("dpid", 0)], body, lead=ev.get("lead", 1),
                                  period=ev.get("period", 1), jitter=ev.get("jitter", ()), trail=ev.get("trail", 0))
-        rec.update(A=self.t, T=T, crc_ok=ok, t_complete=T + 1, t_rdy=(T + 1 + self.d) if ok else None)
-        yield from self._wait_until(T + 1 + self.d + 3)
+        rec.update(A=self.t, T=T, crc_ok=ok, t_complete=T + 1,
+                   t_rdy=(T + 1 + self.rx_delay(len(body) - 2)) if ok else None)
+        yield from self._wait_until(T + 2 + self.d + 3)
 
     # ---- CycleHarness driver interface -----------------------------------------------------------------------
     def step(self, t, prev):
